@@ -568,6 +568,61 @@ example (c : Codec.Cfg) (hc : c.env = Bridge.toEnv flattenChain flattenChainReg)
   · rw [flattenChain_env]; decide +kernel
   · left; rw [flattenChain_env, hO]; decide +kernel
 
+/-- a second witness with every container: `message R { repeated string tags = 1;
+map<string,int32> counts = 2; E e = 3; optional bool on = 4; S s = 5; }  message S { int64 n = 1; }
+enum E { E_UNSPECIFIED = 0; E_A = 1; E_B = 2; }` -/
+def richSet : DescSet :=
+  let tags : FieldD := ⟨"tags", "tags", 1, .string, .list, -1, .none, false, none, none, none, none, none, none⟩
+  let counts : FieldD := ⟨"counts", "counts", 2, .message, .map, -1, .none, false, none, none, none, none,
+    some .string, some (.int32, .none, none)⟩
+  let e : FieldD := ⟨"e", "e", 3, .enum, .single, -1, .enum "rc.v1.E" "rc.v1" "E", false, none, none, none, none, none, none⟩
+  let on : FieldD := ⟨"on", "on", 4, .bool, .single, -1, .none, true, none, none, none, none, none, none⟩
+  let s : FieldD := ⟨"s", "s", 5, .message, .single, -1, .msg "rc.v1.S" "rc.v1" "S", false, none, none, none, none, none, none⟩
+  let n : FieldD := ⟨"n", "n", 1, .int64, .single, -1, .none, false, none, none, none, none, none, none⟩
+  let r : Msg := ⟨"rc.v1.R", "rc.v1", "R", "R", none, none, "nofield", none, [], [tags, counts, e, on, s]⟩
+  let sm : Msg := ⟨"rc.v1.S", "rc.v1", "S", "S", none, none, "nofield", none, [], [n]⟩
+  let en : EnumD := ⟨"rc.v1.E", "rc.v1", "E", "E", false, [("E_UNSPECIFIED", 0), ("E_A", 1), ("E_B", 2)]⟩
+  ⟨["rc.v1.R", "rc.v1.S"], ["rc.v1.E"], ["rc.v1.R", "rc.v1.S"], [r, sm], [en]⟩
+
+/-- what the reader model makes of it (three entries: R, S, E) -/
+def richReg : Reg := match schemaSetFromFilesN richSet 20 with | some (.ok r) => r | _ => []
+
+example : linked richSet = true ∧ richReg.length = 3 := by decide +kernel
+
+theorem richSet_reflects : schemaSetFromFiles richSet = .ok richReg :=
+  schemaSetFromFilesN_sound richSet 20 _ (by decide +kernel)
+
+def richEnv : Codec.Env := (Bridge.toEnvN 10 richSet richReg).getD ⟨[], []⟩
+
+theorem richSet_env : Bridge.toEnv richSet richReg = richEnv := by
+  apply Bridge.toEnvN_sound 10
+  have h : (Bridge.toEnvN 10 richSet richReg).isSome = true := by decide +kernel
+  unfold richEnv
+  cases hh : Bridge.toEnvN 10 richSet richReg with
+  | none => rw [hh] at h; cases h
+  | some e => rfl
+
+/-- `R{ tags: ["a","b"], counts: {"k": 3}, e: E_B, on: false (set), s: S{ n: 7 } }` -/
+def richMsg : Codec.Fields :=
+  [(1, .list [.str (Json.ascii "a"), .str (Json.ascii "b")]),
+   (2, .map [(Json.ascii "k", .int 3)]),
+   (3, .enum 2), (4, .bool false), (5, .msg [(1, .int 7)])]
+
+/-- the populated message (array, map, enum, explicitly-set optional bool, nested object) of the
+reflected `R` round-trips through every codec over the reflected schema; its JSON is
+`{"tags":["a","b"],"counts":{"k":3},"e":"B","on":false,"s":{"n":"7"}}` -/
+example (c : Codec.Cfg) (hc : c.env = Bridge.toEnv richSet richReg) (hO : c.O = Codec.toyOracle) :
+    ∃ bs, Codec.encodeBytes (Bridge.toEnv richSet richReg) c.O "rc.v1.R" (.msg richMsg) = .ok bs ∧
+      Codec.decodeBytes c "rc.v1.R" bs = .ok richMsg := by
+  refine C18_reflected_roundtrip_noAny_partial _ _ richSet_reflects c hc ?_ ?_ (hO ▸ Codec.toyOracle_laws) _ _ ?_
+  · rw [richSet_env]; decide +kernel
+  · rw [richSet_env]; decide +kernel
+  · left; rw [richSet_env, hO]; decide +kernel
+
+example : Codec.encodeBytes richEnv Codec.toyOracle "rc.v1.R" (.msg richMsg) =
+    .ok (Json.ascii "{\"tags\":[\"a\",\"b\"],\"counts\":{\"k\":3},\"e\":\"B\",\"on\":false,\"s\":{\"n\":\"7\"}}") := by
+  decide +kernel
+
 /-! ## Non-vacuity -/
 
 /-- `message M { M child = 1; string name = 2; }` — self-recursive -/
